@@ -191,8 +191,17 @@ def run_case(case):
     res["probes"]["extraction_returned"] = 1 if outcome == "returned" else 0
     res["probes"]["name_through_earlier_link"] = 1 if chained else 0
     res["extra"]["audited_fs_mutations"] = len(j.events)
-    res["digest"] = digest_of([canon, case["dest"], outcome, j.events, sorted(after)])
-    res["sample"] = {"entries": canon, "dest": case["dest"], "open": case["open"], "call": case["call"], "outcome": outcome, "audited_events": j.events[:8]}
+    def _clean(x):
+        import re
+
+        if not isinstance(x, str):
+            return x
+        x = x.replace(scratch.lstrip("/"), "$S").replace(scratch, "$S")
+        return re.sub(r"/?dev/shm/verif-\d+(/[^/\"\]]+)?", "$W", x)
+
+    ev_clean = [(k, _clean(p)) for k, p in j.events]
+    res["digest"] = digest_of([canon, case["dest"], outcome, ev_clean, sorted(_clean(k) for k in after)])
+    res["sample"] = {"entries": canon, "dest": case["dest"], "open": case["open"], "call": case["call"], "outcome": outcome, "audited_events": ev_clean[:8]}
     tree.make_removable(scratch)
     shutil.rmtree(scratch, ignore_errors=True)
     return res
